@@ -91,7 +91,9 @@ type c13Case struct {
 	// reading while this session runs (its router queue fills up); both must end and release everything
 	Companion int `json:"companion,omitempty"`
 	// Store = "busy": another writer holds the SQLite database for the whole session (see above)
-	Store  string `json:"store,omitempty"`
+	Store string `json:"store,omitempty"`
+	// Pool1 (busy store): the handler's database pool has a single connection
+	Pool1  bool   `json:"pool1,omitempty"`
 	StMs   int    `json:"st_ms"`
 	PingMs int    `json:"ping_ms"`
 	Obs    c13Obs `json:"obs"`
@@ -133,6 +135,9 @@ const c13BusyBulkNum = 1 // EventBulkInsertNum of the busy store: the hand-over 
 
 // c13SqliteBusy: the SQLite handler on a file-backed database that another connection keeps
 // write-locked.  Every wait is bounded; the directory is removed by the cleanup.
+// c13Pool1: the busy store's pool has one connection (set from the case before the composition is built)
+var c13Pool1 bool
+
 func c13SqliteBusy(b *c13Built, cleanups *[]func()) mocrelay.Handler {
 	dir, err := os.MkdirTemp("", "verif-c13-")
 	if err != nil {
@@ -143,6 +148,9 @@ func c13SqliteBusy(b *c13Built, cleanups *[]func()) mocrelay.Handler {
 	if err != nil {
 		os.RemoveAll(dir)
 		panic(err)
+	}
+	if c13Pool1 {
+		db.SetMaxOpenConns(1) // the usual setting for SQLite: queries then wait for the connection the insertion holds
 	}
 	hctx, hcancel := context.WithCancel(context.Background())
 	var db2 *sql.DB
@@ -253,21 +261,21 @@ func c13Build(comp, mw int, store string) (b *c13Built) {
 	case 0:
 		h = mocrelay.NewDefaultHandler()
 	case 1:
-		h = mocrelay.NewCacheHandler(8)
+		h = mocrelay.NewCacheHandler(32)
 	case 2:
 		h = router()
 	case 3:
 		h = sqlite()
 	case 4:
-		h = mocrelay.NewMergeHandler(mocrelay.NewCacheHandler(8), router())
+		h = mocrelay.NewMergeHandler(mocrelay.NewCacheHandler(32), router())
 	case 5: // as in cmd/mocrelay/main.go
-		h = mocrelay.NewMergeHandler(mocrelay.NewCacheHandler(8), router(), sqlite())
+		h = mocrelay.NewMergeHandler(mocrelay.NewCacheHandler(32), router(), sqlite())
 	case 6:
-		h = mocrelay.NewMergeHandler(mocrelay.NewDefaultHandler(), mocrelay.NewCacheHandler(8), router(), router())
+		h = mocrelay.NewMergeHandler(mocrelay.NewDefaultHandler(), mocrelay.NewCacheHandler(32), router(), router())
 	case 7: // nested merge
-		h = mocrelay.NewMergeHandler(mocrelay.NewMergeHandler(mocrelay.NewCacheHandler(8), router()), router())
+		h = mocrelay.NewMergeHandler(mocrelay.NewMergeHandler(mocrelay.NewCacheHandler(32), router()), router())
 	default: // a middleware inside a merge
-		h = mocrelay.NewMergeHandler(mocrelay.NewMaxSubscriptionsMiddleware(2)(mocrelay.NewCacheHandler(8)), router())
+		h = mocrelay.NewMergeHandler(mocrelay.NewMaxSubscriptionsMiddleware(2)(mocrelay.NewCacheHandler(32)), router())
 	}
 	discard := slog.New(slog.NewTextHandler(io.Discard, nil))
 	prom := func(h mocrelay.Handler) mocrelay.Handler {
@@ -356,6 +364,7 @@ func c13RunSession(c *c13Case) {
 			c.Obs.Panic = fmt.Sprint(r)
 		}
 	}()
+	c13Pool1 = c.Pool1
 	b := c13Build(c.Comp%c13NComp, c.Mw%c13NMw, c.Store)
 	defer b.cleanup()
 	// let the handler's own goroutines (SQLite bulk insert) start before the baseline is taken
@@ -745,6 +754,8 @@ func c13GenSession(r *common.Rand, idx int) c13Case {
 		c.End, c.Peer = common.Pick(r, []string{"cancel", "close"}), "drain"
 	} else if r.Chance(5) {
 		c13GenBusy(r, &c)
+	} else if r.Chance(5) {
+		c13GenBigAnswer(r, &c)
 	} else if r.Chance(7) {
 		// two busy neighbours (one opening and closing a subscription, one publishing) on a composition with a router
 		c.Comp = common.Pick(r, []int{2, 4, 5, 6, 7, 8})
@@ -790,8 +801,31 @@ func c13GenBusy(r *common.Rand, c *c13Case) {
 		}
 		c.Hist = append(c.Hist, m)
 	}
+	c.Pool1 = r.Bool()
+	if r.Chance(50) {
+		// and a query on top: with a pool of one it waits for the connection that the stalled insertion holds
+		c.Hist = append(c.Hist, c13Msg{T: "REQ", Sub: "a", Fs: []common.JFilter{{}}})
+	}
 	c.End = "cancel"
 	c.Peer = common.Pick(r, []string{"drain", "drain", "stall"})
+}
+
+// c13GenBigAnswer: a composition with the cache, 14..24 stored events, then a REQ that matches them all; the
+// session ends while the answer is being delivered (the peer stops reading before the REQ, or the end comes
+// right after the REQ was handed over)
+func c13GenBigAnswer(r *common.Rand, c *c13Case) {
+	c.Comp = common.Pick(r, []int{1, 4, 5, 6, 7, 8})
+	c.Companion, c.Store = 0, ""
+	c.Hist = nil
+	for i, n := 0, 14+r.Intn(11); i < n; i++ {
+		e := common.JEvent{ID: fmt.Sprintf("%064x", 500+i), PK: fmt.Sprintf("%064x", 0xa0+r.Intn(3)), TS: int64(i % 5), Kind: 1,
+			Tags: [][]string{}, Sig: fmt.Sprintf("%0128x", 1)}
+		c.Hist = append(c.Hist, c13Msg{T: "EVENT", Ev: &e})
+	}
+	c.Hist = append(c.Hist, c13Msg{T: "REQ", Sub: "a", Fs: []common.JFilter{{}}})
+	c.End = "cancel"
+	c.Peer = common.Pick(r, []string{"stall", "stall", "drain"})
+	c.Settle = c.Peer == "stall" && r.Bool()
 }
 
 var c13WsConfigs = [][2]int{{100, 0}, {100, 20}, {300, 1000}, {300, 0}, {100, 1000}, {300, 20}}
